@@ -312,22 +312,26 @@ def Node.fulfill (n : Node) (h : Hash) : Node × Bool :=
 def invoicePrunable (now : Nat) (inv : Invoice) (p : Payment) (nch : Nat) : Bool :=
   (p.pre || sumCh nch p.out == 0) && now > inv.deadline
 
+/-- `prune_invoices`: the invoice of `h` is pruned (together with its payment entry) -/
+def Node.pr (n : Node) (now : Nat) (h : Hash) : Bool :=
+  match n.invoices h, n.payments h with
+  | some inv, some p => invoicePrunable now inv p n.nch
+  | _, _ => false
+def Node.inv1 (n : Node) (now : Nat) : Hash → Option Invoice := fun h => if n.pr now h then none else n.invoices h
+def Node.pay1 (n : Node) (now : Nat) : Hash → Option Payment := fun h => if n.pr now h then none else n.payments h
+/-- `prune_forwarded_payments` (after `prune_invoices`): no invoice, nothing incoming, nothing outgoing -/
+def Node.fw (n : Node) (now : Nat) (h : Hash) : Bool :=
+  match n.pay1 now h with
+  | some p => (n.inv1 now h).isNone && sumCh n.nch p.inc == 0 && sumCh n.nch p.out == 0
+  | none => false
+def Node.pay2 (n : Node) (now : Nat) : Hash → Option Payment := fun h => if n.fw now h then none else n.pay1 now h
+
 /-- `get_heartbeat`: `prune_invoices(now)` then `prune_forwarded_payments()`; `none` = the
     `missing payments struct` panic of `prune_invoices`. The node state is persisted iff something was pruned. -/
 def Node.heartbeat (n : Node) (now : Nat) : Option Node :=
   if n.known.any (fun h => (n.invoices h).isSome && (n.payments h).isNone) then none else
-  let pr : Hash → Bool := fun h => match n.invoices h, n.payments h with
-    | some inv, some p => invoicePrunable now inv p n.nch
-    | _, _ => false
-  let inv1 : Hash → Option Invoice := fun h => if pr h then none else n.invoices h
-  let pay1 : Hash → Option Payment := fun h => if pr h then none else n.payments h
-  let fw : Hash → Bool := fun h => match pay1 h with
-    | some p => (inv1 h).isNone && sumCh n.nch p.inc == 0 && sumCh n.nch p.out == 0
-    | none => false
-  let pay2 : Hash → Option Payment := fun h => if fw h then none else pay1 h
-  let n' := { n with invoices := inv1, payments := pay2 }
-  -- `pruned1 || pruned3`: the node state is persisted iff something was pruned
-  some (if n.known.any (fun h => pr h || fw h) then n'.persist else n')
+  let n' := { n with invoices := n.inv1 now, payments := n.pay2 now }
+  some (if n.known.any (fun h => n.pr now h || n.fw now h) then n'.persist else n')
 
 /-- `restore_payments` of one channel on the payments map being rebuilt -/
 def restoreChan (chans : Chan → ChanSt) (payments : Hash → Option Payment) (c : Chan) : Hash → Option Payment :=
